@@ -1127,6 +1127,7 @@ package ucfg
 // message is built from the path of the context it is given (or of the named field below it).
 //@ func raiseValidation :: ctx, meta, field, err -> result
 //@ props C14 C04 C07
+//@ rvwrites nothing
 //@ requires err != nil
 //@ pure
 //@ ensures [typed] result != nil && typeof(result) == baseError && result.(baseError).reason == err && result.(baseError).class == ErrConfig
@@ -1138,6 +1139,7 @@ package ucfg
 //@ func unpackWith :: opts, v, with -> result
 //@ props C14
 //@ norte
+//@ rvwrites rvRootOf(v), pointeeStore()
 //@ modifies *
 //@ ensures [names_setting] result != nil ==> typeof(result) == baseError && result.(baseError).path == pathOfCtx(old(ctxof(with)), ".") && result.(baseError).reason != nil
 
@@ -1326,6 +1328,7 @@ package ucfg
 //@ func reifyMergeValue :: opts, oldValue, val -> r, err
 //@ props C11
 //@ norte
+//@ rvwrites rvRootOf(oldValue), pointeeStore()
 //@ requires opts.opts != nil
 //@ modifies *
 //@ ensures [scope !unproved] opts.opts.activeFields == old(opts.opts.activeFields)
@@ -1359,9 +1362,10 @@ package ucfg
 //@ modifies *
 //@ ensures [scope] opts.activeFields == old(opts.activeFields)
 
-//@ func tryInitDefaults
+//@ func tryInitDefaults :: val -> r
 //@ trusted
 //@ pure
+//@ rvwrites rvRootOf(val), pointeeStore()
 
 // ---------------------------------------------------------------- C11: reads are pure (frame conditions)
 
@@ -1534,21 +1538,28 @@ package ucfg
 
 //@ ghost func chased(v reflect.Value) reflect.Value
 //@ func chaseValue :: v -> r
-//@ props C04 C06
+//@ props C04 C06 C13
 //@ pure
+//@ rvwrites nothing
+//@ ensures [storage !unproved] rvRootOf(r) == rvRootOf(v) || rvRootOf(r) == pointeeStore()
 //@ ensures [naming !unproved] r == chased(v)
 //@ ensures [scalar_is_itself] rvKind(v) != 22 && rvKind(v) != 20 ==> r == v
 //@ loop 1 invariant rvKind(entry(v)) != 22 && rvKind(entry(v)) != 20 ==> v == entry(v)
 
 //@ func chaseValuePointers :: v -> r
-//@ props C11
+//@ props C11 C13
 //@ pure
+//@ rvwrites nothing
+//@ ensures [naming !unproved] r == chasedP(v)
+//@ ensures [one_hop] rvKind(v) == 22 && !rvNil(v) && rvKind(rvElem(v)) != 22 ==> r == rvElem(v)
+//@ loop 1 invariant rvKind(entry(v)) == 22 && !rvNil(entry(v)) && rvKind(rvElem(entry(v))) != 22 ==> v == entry(v) || v == rvElem(entry(v))
 //@ ensures [stops] rvKind(r) != 22 || rvNil(r)
 //@ ensures [non_pointer_is_itself] rvKind(v) != 22 ==> r == v
 //@ loop 1 invariant rvKind(entry(v)) != 22 ==> v == entry(v)
 
 //@ func chaseTypePointers :: t -> r
-//@ props C11
+//@ props C11 C13
+//@ rvwrites nothing
 //@ requires t != nil
 //@ pure
 //@ ensures [stops] rtKind(r) != 22
@@ -1706,3 +1717,70 @@ package ucfg
 //@ requires to != from
 //@ modifies tree(to)
 //@ ensures result == nil ==> mergedInto(to, from, opts.opts)
+
+// ---------------------------------------------------------------- C13: Unpack into a struct is all-or-nothing
+
+// Reflect storage model (ghost memory RV, DESIGN.md section 11): rvRootOf(h) is the variable or object a handle
+// gives write access to (Field and Addr stay inside it; Elem of a pointer, Index of a slice and MapIndex lead to
+// other storage, summarised by the single root pointeeStore()); rvver(root) is the version of its content. The
+// rvwrites lines are ASSUMED summaries of what the reflect-driven callees may write: the storage behind the
+// handle they are given, and pointees. What is proved: reifyStruct writes the storage of the struct it is given
+// only by its final orig.Set, i.e. only after every field converted and every validator accepted.
+//@ ghost func chasedP(v reflect.Value) reflect.Value
+
+//@ func valueIsUnpacker :: v -> r, ok
+//@ props C07
+//@ sweep
+//@ rvwrites nothing
+//@ ensures [storage !unproved] ok ==> rvRootOf(r) == rvRootOf(v)
+
+//@ func pointerize :: t, base, v -> r
+//@ props C07
+//@ sweep
+//@ rvwrites nothing
+
+//@ func raiseInlineNeedsObject
+//@ props C07
+//@ sweep
+//@ rvwrites nothing
+
+//@ func raiseCritical :: reason, message -> result
+//@ props C14 C07
+//@ sweep
+//@ rvwrites nothing
+//@ ensures [typed] result != nil && typeof(result) == criticalError
+
+//@ func accessField :: structVal, fieldIdx, opts -> info, skip, err
+//@ props C13 C07
+//@ sweep
+//@ rvwrites nothing
+//@ ensures [field_of_struct] err == nil && !skip ==> info.value == rvField(structVal, fieldIdx) && rvRootOf(info.value) == rvRootOf(structVal)
+
+//@ func reifyGetField :: cfg, opts, name, to, fieldType -> result
+//@ props C07
+//@ sweep
+//@ rvwrites rvRootOf(to), pointeeStore()
+
+//@ func reifyInto :: opts, to, from -> result
+//@ trusted
+//@ modifies *
+//@ rvwrites rvRootOf(to), pointeeStore()
+
+//@ func tryValidate :: val -> result
+//@ trusted
+//@ modifies *
+//@ rvwrites rvRootOf(val), pointeeStore()
+
+//@ func reifyStruct$1
+//@ props C07
+//@ sweep
+//@ rvwrites nothing
+
+//@ func reifyStruct :: opts, orig, cfg -> result
+//@ props C13 C07
+//@ sweep
+//@ requires opts != nil && cfg != nil
+//@ requires allocated(rvRootOf(chasedP(orig))) && rvRootOf(chasedP(orig)) != pointeeStore()
+//@ modifies *
+//@ ensures [untouched_on_error] result != nil ==> rvver(rvRootOf(chasedP(orig))) == old(rvver(rvRootOf(chasedP(orig))))
+//@ loop 1 invariant rvver(rvRootOf(chasedP(entry(orig)))) == old(rvver(rvRootOf(chasedP(entry(orig)))))
